@@ -69,7 +69,7 @@ var ProfileDefault = Profile{
 	Name: "default", MaxPlans: 3, MaxBlocks: 3, MaxSeqs: 5, MaxActs: 3, MaxCheckActs: 2,
 	PGroup: 35, PBypass: 15, PFailSeqAct: 12, PFailCheckAct: 8, PBypassOK: 40, PContFail: 15, MaxContFailRun: 4,
 	PlanContMayFail: true, PGate: 30, MaxRetries: 2, PRetry: 25, RichOutcomes: true,
-	ContDelays: []int{0, 1, 2}, PPoll: 30, PWriteLat: 20, PDelay: 15,
+	ContDelays: []int{0, 1, 2, 4}, PPoll: 30, PWriteLat: 20, PDelay: 15,
 }
 
 // pct is true with probability p percent. rapid's integer generators are deliberately biased toward small values, so
@@ -270,11 +270,11 @@ func (pf *Profile) genBlock(t *rapid.T) BlockSpec {
 	if pf.BigBlocks && pct(t, 60, "big") {
 		ns = rng(t, min(3, pf.MaxSeqs), pf.MaxSeqs, "nSeqsBig")
 	}
-	b.Concurrency = pick(t, []int{0, 1, 1, 2, 2, 3, ns + 1}, "conc")
+	b.Concurrency = pick(t, []int{0, 1, 1, 2, 2, 2, 3, 3, ns + 1, -1, -5, 64}, "conc") // < 1 means unset (1)
 	b.Tolerated = pick(t, []int{0, 0, 0, 0, 1, 1, 2, -1, -1, -2, -1000, -2147483648, ns}, "tol") // "a negative value allows all"
 	if pct(t, pf.PDelay, "delays") {
-		b.EntranceDelayUs = pick(t, []int{0, 1000}, "entrance")
-		b.ExitDelayUs = pick(t, []int{0, 1000}, "exit")
+		b.EntranceDelayUs = pick(t, []int{0, 1000, 300, -1000}, "entrance")
+		b.ExitDelayUs = pick(t, []int{0, 1000, 300, -1000}, "exit")
 	}
 	for s := 0; s < ns; s++ {
 		na := sized(t, pf.MaxActs, "nActs")
